@@ -6,6 +6,7 @@ import (
 	"sort"
 	"strings"
 
+	"github.com/algorand/go-algorand/crypto"
 	"github.com/algorand/go-algorand/data/basics"
 	"github.com/algorand/go-algorand/ledger/ledgercore"
 	"github.com/algorand/go-algorand/ledger/store/trackerdb"
@@ -54,9 +55,9 @@ var readNames = [nReadKinds]string{
 // relative weights of the read kinds (paginated and listing readers are asked more often)
 var readWeights = [nReadKinds]int{4, 4, 5, 3, 6, 8, 3, 1, 2, 2, 2, 3, 6, 5, 3, 2, 4, 6, 4, 3, 2, 2, 2, 4, 3}
 
-func encAcct(d trackerdb.BaseAccountData) string       { return hx(protocol.Encode(&d)) }
-func encRes(d trackerdb.ResourcesData) string          { return hx(protocol.Encode(&d)) }
-func encOnl(d trackerdb.BaseOnlineAccountData) string  { return hx(protocol.Encode(&d)) }
+func encAcct(d trackerdb.BaseAccountData) string          { return hx(protocol.Encode(&d)) }
+func encRes(d trackerdb.ResourcesData) string             { return hx(protocol.Encode(&d)) }
+func encOnl(d trackerdb.BaseOnlineAccountData) string     { return hx(protocol.Encode(&d)) }
 func encParams(d ledgercore.OnlineRoundParamsData) string { return hx(protocol.Encode(&d)) }
 
 // a query round the ledger could ask about: not older than the online-history horizon (rounds below the
@@ -571,6 +572,28 @@ func (s *Sim) buildRead(kind int, p []int, rc int) *op {
 				return out
 			})
 		}
+		// reference: the stored rounds, contiguous downwards from the db round (every commit writes a row per round)
+		var rs []uint64
+		for r := dbr; ; r-- {
+			if _, ok := m.txtail[r]; !ok {
+				break
+			}
+			rs = append([]uint64{r}, rs...)
+			if r == 0 {
+				break
+			}
+		}
+		if len(rs) == len(m.txtail) { // (a gap would be an error in both backends; never produced by the commits)
+			base := dbr + 1
+			if len(rs) > 0 {
+				base = rs[0]
+			}
+			o.exp = []string{fmt.Sprintf("base=%d n=%d", base, len(rs))}
+			for _, r := range rs {
+				h := crypto.Hash(m.txtail[r])
+				o.exp = append(o.exp, fmt.Sprintf("tail=%s hash=%x", hx(m.txtail[r]), h[:6]))
+			}
+		}
 	case 20: // LookupSPContext
 		last := uint64(p[0]%12) * 8
 		o.desc = fmt.Sprintf("LookupSPContext(%d)", last)
@@ -892,7 +915,7 @@ func (m *model) onlineTop(r, offset, n, rewardUnit uint64) []string {
 		d := c.e.data
 		mp[addrs[c.a]] = &ledgercore.OnlineAccount{Address: addrs[c.a], MicroAlgos: d.MicroAlgos, RewardsBase: d.RewardsBase,
 			NormalizedOnlineBalance: basics.NormalizedOnlineAccountBalance(basics.Online, d.RewardsBase, d.MicroAlgos, rewardUnit),
-			VoteFirstValid: d.VoteFirstValid, VoteLastValid: d.VoteLastValid, StateProofID: d.StateProofID}
+			VoteFirstValid:          d.VoteFirstValid, VoteLastValid: d.VoteLastValid, StateProofID: d.StateProofID}
 	}
 	return fmtOnlineTop(mp)
 }
@@ -967,7 +990,7 @@ func (m *model) onlineTopPebble(r, offset, n, rewardUnit uint64) []string {
 		d := c.e.data
 		mp[addrs[c.a]] = &ledgercore.OnlineAccount{Address: addrs[c.a], MicroAlgos: d.MicroAlgos, RewardsBase: d.RewardsBase,
 			NormalizedOnlineBalance: basics.NormalizedOnlineAccountBalance(basics.Online, d.RewardsBase, d.MicroAlgos, rewardUnit),
-			VoteFirstValid: d.VoteFirstValid, VoteLastValid: d.VoteLastValid, StateProofID: d.StateProofID}
+			VoteFirstValid:          d.VoteFirstValid, VoteLastValid: d.VoteLastValid, StateProofID: d.StateProofID}
 	}
 	return fmtOnlineTop(mp)
 }
